@@ -547,6 +547,8 @@ def run(repo, chk):
                        f"`{var}.{attr}` is used where `{var}` may still be a {' / '.join(lacking)} (no isinstance or _expect check on that path): AttributeError on a malformed selector")
         else:
             chk.ob("R18.2", f"{fi.qual}:operand-kinds", True, fi.where, f"every attribute used on an operand exists on all kinds possible there ({kf.checked} uses)")
+    from .shared import call_extension_obligations
+    call_extension_obligations(repo, chk, "R18.2")
     # the kind universe itself: what the actions return
     bad_ret = []
     for fi in actions:
